@@ -1086,7 +1086,7 @@ def handleToDef (args : List String) (impl : List String) : String :=
           match Tokenizer.new d with
           | .error _ => "ERR init"
           | .ok _ =>
-            match exportDefinition d idPerm idPerm idPerm with
+            match exportDefinition d idPerm idPerm with
             | .ok d' => s!"OK {toHex (DefCodec.toVec d')}"
             | .err _ => "ERR export"
             | .panic _ => "PANIC"
@@ -1096,7 +1096,7 @@ def handleToDef (args : List String) (impl : List String) : String :=
       let canonicalInput : Bool :=
         match DefCodec.fromSlice (regexOracle tab) bs with
         | some d =>
-          (match Tokenizer.new d, exportDefinition d idPerm idPerm idPerm with
+          (match Tokenizer.new d, exportDefinition d idPerm idPerm with
             | .ok _, .ok d' => DefCodec.toVec d' == bs
             | _, _ => false)
         | none => false
